@@ -402,8 +402,10 @@ handle_key!(c20_key_delete_len2, K::Delete, 2usize, 27);
 handle_key!(c20_key_left_right_len1, K::Left, 1usize, 8);
 handle_key!(c20_key_right_len1, K::Right, 1usize, 8);
 handle_key!(c20_key_ctrl_left_len2, K::CtrlLeft, 2usize, 27);
+handle_key!(c20_key_ctrl_right_len1, K::CtrlRight, 1usize, 8);
 handle_key!(c20_key_ctrl_right_len2, K::CtrlRight, 2usize, 27);
 handle_key!(c20_key_up_len1, K::Up, 1usize, 8);
 handle_key!(c20_key_down_len1, K::Down, 1usize, 8);
+handle_key!(c20_key_enter_len1, K::Enter, 1usize, 8);
 handle_key!(c20_key_enter_len2, K::Enter, 2usize, 27);
 // (Enter trims the line: `str::trim` on a 2-character line with a 4-byte character needs a larger unwinding bound)
